@@ -257,6 +257,13 @@ func (s *Scanner) AddSignatures(sigs []detection.Signature) error {
 		}
 
 		s.db.Signatures = append(s.db.Signatures, *sig)
+
+		// Keep the ID index in step with the slice, as AddSignature does; otherwise
+		// signatures added in a batch cannot be fetched back by ID.
+		if s.sigMap == nil {
+			s.sigMap = make(map[string]int)
+		}
+		s.sigMap[sig.ID] = len(s.db.Signatures) - 1
 	}
 	return nil
 }
